@@ -343,6 +343,14 @@ def _decl_chain(rng, doc, want=None):
         if isinstance(node_at(doc, outer), (dict, list)):
             o = ["o", loc_to_steps(rng, doc, outer, fancy=0.1)]
             inner_steps = [["k", nm] if isinstance(nm, str) else ["i", nm] for nm in inner]
+            if rng.random() < 0.25:
+                # the outer attribute is typed through getter=get_match: its nested document wraps the Match, and
+                # an attribute of the nested type may leave the node with parent steps (a sibling of the node)
+                o = o + ["gm"]
+                if rng.random() < 0.6:
+                    up = node_at(doc, outer[:-1])
+                    sib = rng.choice(list(up.keys())) if isinstance(up, dict) and up else rng.choice([0, -1, 1])
+                    return [o, ["x", [["par"], ["k", sib] if isinstance(sib, str) else ["i", sib]]]], None
             if len(inner) == 1 and isinstance(inner[0], str) and rng.random() < 0.5:
                 return [o, [inner[0], None]], loc
             return [o, ["x", inner_steps]], loc
